@@ -261,11 +261,11 @@ def driver_programs(quick, rnd):
         smooth2 = [mkf('L2sq'), mkf('Quad', 0, 1, v=[2] * N, u=alt(1, -H))]
         rules = [lambda g: g,
                  lambda g: mkf('Translate', u=rv(), args=[g]),
-                 lambda g: mkf('ArgScale', rnd.choice([(2, 1), (-1, 2), (3, 2)]), args=[g]),
+                 lambda g: mkf('ArgScale', rnd.choice([(2, 1), (-1, 2), (-1, 1)]), args=[g]),
                  lambda g: mkf('LScale', rnd.choice([(2, 1), (-1, 1), (1, 2)]), args=[g]),
                  lambda g: mkf('RVec', v=[Fraction(rnd.choice([-2, 1, 2]), rnd.choice([1, 2])) for _ in range(N)], args=[g]),
                  lambda g: mkf('AddConst', 0, -2, args=[g]),
-                 lambda g: mkf('QuadPert', rnd.choice([(1, 2), (1, 1), (3, 2)]), 1, u=rv(), args=[g]),
+                 lambda g: mkf('QuadPert', rnd.choice([(1, 2), (1, 1), (2, 1)]), 1, u=rv(), args=[g]),
                  lambda g: mkf('QuadPert', (1, 1), 0, args=[g]),
                  lambda g: mkf('Bregman', v=rv(), u=rv(), args=[g]),
                  lambda g: mkf('Sum', args=[g, rnd.choice(smooth2)]),
@@ -303,9 +303,10 @@ def driver_program(arg):
     H = Fraction(1, 2)
     ops = fu.ops_of(f)
     # base points in the interior of the pieces: no zero entries, away from the kinks of the catalogue
+    # (odd quarters: off the kinks at 0, +-1/2, +-1, +-2 of the catalogue, and narrow enough for 32-bit rationals in TLC)
     fixed = [[Fraction(3) if i % 2 == 0 else Fraction(-4) for i in range(N)], [Fraction(2 * i + 3, 4) for i in range(N)],
              [Fraction(-5, 4) - i for i in range(N)]]
-    rand = [[Fraction(rnd.choice([-1, 1]) * rnd.randint(1, 12), 4) + Fraction(1, 8) for _ in range(N)] for _ in range(npts)]
+    rand = [[Fraction(rnd.choice([-1, 1]) * (2 * rnd.randint(0, 6) + 1), 4) for _ in range(N)] for _ in range(npts)]
     xs = fixed + rand
     if 'KL' in ops:
         xs = [[abs(v) + Fraction(1, 4) for v in x] for x in xs]
@@ -422,37 +423,41 @@ def run(ctx):
     ctx.extra['programs_by_outermost_rule'] = fu.by_rule(progs)       # every action of the machine is exercised
     drnd = random.Random(ctx.seed * 7919 + 13)
     dprogs = driver_programs(quick, drnd)
-    with mp.Pool(min(14, os.cpu_count() or 4)) as pool:
-        outs = pool.map(replay_program, [(r, ctx.seed, quick) for r in progs], chunksize=4)
-        douts = pool.map(driver_program, [(spd, f, ctx.seed, 2 if quick else 6) for spd, f in dprogs], chunksize=4)
-        douts += pool.map(special_program, [(i, ctx.seed) for i in range(6)])
-    stage['replay_and_driver'] = round(time.time() - t0 - stage['tlc_model_export'], 1)
-    events, details, classes = [], [], set()
-    nograd = lip = 0
-    for o in outs + douts:
+    sink = fu.EventSink(ctx, 'c09')
+    classes = set()
+    tot = {'nograd': 0, 'lipclaims': 0, 'n': 0}
+
+    def absorb(o):
         for sig, det in o['viol']:
             fu.report(ctx, sig, det)
         for key, nt in o['counts']:
             ctx.count(key, nt)
         for ev, det in o['events']:
-            ev['id'] = len(events)
-            events.append(ev)
-            details.append(det)
-        classes |= o['classes']
-        nograd += o['nograd']
-        lip += o['lipclaims']
+            sink.add(ev, det)
+        classes.update(o['classes'])
+        tot['nograd'] += o['nograd']
+        tot['lipclaims'] += o['lipclaims']
+        tot['n'] += len(o['counts'])
         for s in o['samples']:
             if len(ctx.samples) < 5:
                 ctx.sample(s)
-    ctx.traces += sum(len(o['counts']) for o in outs + douts)
-    ctx.extra['programs_without_gradient'] = nograd
-    ctx.extra['programs_with_finite_grad_lipschitz'] = lip
+    with mp.Pool(min(14, os.cpu_count() or 4)) as pool:
+        for o in pool.imap(replay_program, [(r, ctx.seed, quick) for r in progs], chunksize=4):
+            absorb(o)
+        for o in pool.imap(driver_program, [(spd, f, ctx.seed, 2 if quick else 6) for spd, f in dprogs], chunksize=4):
+            absorb(o)
+        for o in pool.imap(special_program, [(i, ctx.seed) for i in range(6)]):
+            absorb(o)
+    stage['replay_and_driver'] = round(time.time() - t0 - stage['tlc_model_export'], 1)
+    ctx.traces += tot['n']
+    ctx.extra['programs_without_gradient'] = tot['nograd']
+    ctx.extra['programs_with_finite_grad_lipschitz'] = tot['lipclaims']
     ctx.extra['driver_programs'] = len(dprogs)
-    fails = fu.validate_events(ctx, events, 'c09')
+    fails = sink.validate()
     stage['tlc_trace_validation'] = round(time.time() - t0 - stage['tlc_model_export'] - stage['replay_and_driver'], 1)
     ctx.extra['stage_wall_s'] = stage
     for eid, clauses in sorted(fails.items()):
-        ev, det = events[eid], details[eid]
+        ev, det = sink.get(eid)
         for cl in clauses:
             d = dict(det)
             d['stage'] = 'trace:' + det['stage']
@@ -462,7 +467,8 @@ def run(ctx):
             if det['stage'] == 'special':
                 cl = 'moreau-envelope-gradient' if det.get('kind') == 'moreau-envelope' else cl
             fu.report(ctx, fu.signature(det['sp'], det['f'], cl), d)
-    ctx.extra['trace_events_validated_by_tlc'] = len(events)
+    ctx.extra['trace_events_validated_by_tlc'] = sink.n
+    ctx.extra['trace_events_by_kind'] = sink.kinds
     ctx.extra['trace_events_rejected_by_tlc'] = len(fails)
     fu.design_drift(ctx, design, ctx.extra.get('_ops', []))
     fu.uncovered_report(ctx, classes)
